@@ -28,6 +28,10 @@ type zzTransport struct {
 	writeDelay time.Duration
 	name       string
 	reads      int
+	// eofWithData: the Read that hands out the last byte of the current segment also reports io.EOF
+	// (allowed by the io.Reader contract; crypto/tls does it when close_notify follows the last record)
+	eofWithData bool
+	eof         bool
 }
 
 func zzNewTransport(name string) *zzTransport {
@@ -36,6 +40,9 @@ func zzNewTransport(name string) *zzTransport {
 
 func (t *zzTransport) Read(p []byte) (int, error) {
 	t.reads++
+	if t.eof {
+		return 0, io.EOF
+	}
 	for len(t.rest) == 0 {
 		select {
 		case b, ok := <-t.in:
@@ -52,6 +59,10 @@ func (t *zzTransport) Read(p []byte) (int, error) {
 	}
 	n := copy(p, t.rest)
 	t.rest = t.rest[n:]
+	if t.eofWithData && len(t.rest) == 0 {
+		t.eof = true
+		return n, io.EOF
+	}
 	return n, nil
 }
 
